@@ -865,7 +865,8 @@ class EventGenerator:
         Yields:
             An iterator of sax events.
         """
-        if collections.is_array(value):
+        # The array value of a non list compound field is a single tokens value
+        if var.list_element and collections.is_array(value):
             for val in value:
                 yield from self.convert_choice(val, var, namespace)
         else:
@@ -1010,6 +1011,9 @@ class EventGenerator:
                         if j < len(values):
                             rolling = True
                             value = values[j]
+                            if var.is_elements and collections.is_array(value):
+                                # A tokens value of a compound field is one value
+                                value = [value]
                             if value is not None or var.nillable:
                                 yield var, value
                     elif j == 0:
